@@ -8,6 +8,8 @@ package harness
 import (
 	"fmt"
 	"math/rand"
+	"net"
+	"strings"
 	"testing"
 	"time"
 
@@ -174,6 +176,127 @@ func runC07Burst(run *Run, seed int64, rounds int, rng *rand.Rand) (out []*c01Re
 	return
 }
 
+// a node (re)starts on an address that peers are already talking to: claims about its own name - what the
+// cluster remembers of its previous life - are waiting in the socket when the listeners start, i.e. before the
+// node has announced itself; working out the advertised address takes the transport a moment.
+func runC07Startup(run *Run, seed int64, rng *rand.Rand) (out []*c01Result, cells map[string]int64, events int64) {
+	c := NewCluster(seed)
+	defer c.Drain() // (in-flight probes end on their timers; a bubble must not be left while goroutines wait for one)
+	p, err := c.Add(NodeSpec{Name: "p", IP: "10.0.0.1", Meta: []byte("p")})
+	if err != nil {
+		return []*c01Result{{"C07/harness/create", err.Error()}}, nil, 0
+	}
+	oldIP, newIP := "10.0.0.2", "10.0.0.2"
+	if rng.Intn(3) == 0 {
+		newIP = "10.0.0.3" // the name comes back from another address
+	}
+	firstLife := rng.Intn(3) > 0
+	var oldInc uint32 = 1 + uint32(rng.Intn(5))
+	if firstLife {
+		r0, err := c.Add(NodeSpec{Name: "r", IP: oldIP, Meta: []byte("life-1")})
+		if err != nil {
+			return []*c01Result{{"C07/harness/create", err.Error()}}, nil, 0
+		}
+		if _, err := r0.ML().Join([]string{p.EP.Addr}); err != nil {
+			return []*c01Result{{"C07/harness/join", err.Error()}}, nil, 0
+		}
+		Settle(time.Second)
+		if rec := p.Record("r"); rec != nil {
+			oldInc = rec.Incarnation
+		}
+		c.Crash(r0)
+		Settle(time.Duration(rng.Intn(3000)) * time.Millisecond)
+	}
+	kinds := []string{"alive-old", "alive-newer", "alive-same-othermeta", "suspect", "dead", "compound"}
+	kind := kinds[rng.Intn(len(kinds))]
+	delay := []time.Duration{0, time.Microsecond, time.Millisecond, 20 * time.Millisecond}[rng.Intn(4)]
+	run.Cell("startup", kind, fmt.Sprintf("newaddr=%v", newIP != oldIP), fmt.Sprintf("firstlife=%v", firstLife), fmt.Sprintf("delay=%v", delay))
+	oldAddr := net.ParseIP(oldIP).To4()
+	mk := func(k string) []byte {
+		switch k {
+		case "alive-old":
+			return Enc(TAlive, &WAlive{Incarnation: oldInc, Node: "r", Addr: oldAddr, Port: 7946, Meta: []byte("life-1"), Vsn: DefaultVsn()})
+		case "alive-newer":
+			return Enc(TAlive, &WAlive{Incarnation: oldInc + 3, Node: "r", Addr: oldAddr, Port: 7946, Meta: []byte("life-1"), Vsn: DefaultVsn()})
+		case "alive-same-othermeta":
+			return Enc(TAlive, &WAlive{Incarnation: 1, Node: "r", Addr: oldAddr, Port: 7946, Meta: []byte("older-meta"), Vsn: DefaultVsn()})
+		case "suspect":
+			return Enc(TSuspect, &WSuspect{Incarnation: oldInc, Node: "r", From: "p"})
+		case "dead":
+			return Enc(TDead, &WDead{Incarnation: oldInc, Node: "r", From: "p"})
+		}
+		return nil
+	}
+	r, err := c.Add(NodeSpec{Name: "r", IP: newIP, Meta: []byte("life-2"), PreCreate: func(ep *Endpoint) {
+		if kind == "compound" {
+			ep.Preload(p.EP.Addr, MakeCompound([][]byte{mk("suspect"), mk("alive-old"), mk("alive-newer")}))
+		} else {
+			ep.Preload(p.EP.Addr, mk(kind))
+			if rng.Intn(2) == 0 {
+				ep.Preload(p.EP.Addr, mk(kind)) // and its duplicate
+			}
+		}
+		ep.OnAdvertise = func(call int) {
+			if call >= 2 && delay > 0 {
+				time.Sleep(delay)
+			}
+		}
+	}})
+	if err != nil {
+		return []*c01Result{{"C07/startup/create-failed", fmt.Sprintf("Create of a restarting node failed: %v (waiting traffic: %s)", err, kind)}}, nil, 0
+	}
+	Settle(time.Millisecond)
+	c.CheckQuiescent()
+	if !contains(r.MemberNames(), "r") {
+		out = append(out, &c01Result{"C07/startup/self-not-listed", fmt.Sprintf("after Create returned the node does not list itself in Members() (%v); waiting traffic %s, own record %s", r.MemberNames(), kind, recString(r.Record("r")))})
+	}
+	_, _ = r.ML().Join([]string{p.EP.Addr})
+	Settle(5 * time.Second)
+	r.Del.SetMeta([]byte("life-2b"))
+	_ = r.ML().UpdateNode(time.Second)
+	Settle(5 * time.Second)
+	c.CheckQuiescent()
+	for _, pr := range c.Problems() {
+		out = append(out, &c01Result{pr.Key, pr.What})
+	}
+	// Registered finding (DESIGN section 4, #16): an ALIVE claim about the node's own name that is processed before
+	// the node has created its own record builds that record from the claim. The symptoms this is known to
+	// produce - and only these, only on the restarting node, only about its own name, only when such a claim was
+	// waiting - are folded into two keys; everything else keeps its key.
+	aliveWaiting := strings.HasPrefix(kind, "alive") || kind == "compound"
+	moved := newIP != oldIP
+	for _, r := range out {
+		if !aliveWaiting {
+			break
+		}
+		own := strings.HasPrefix(r.What, "[r @") || r.Key == "C07/startup/self-not-listed"
+		aboutSelf := false
+		switch r.Key {
+		case "C07/automaton/join-while-present":
+			aboutSelf = strings.Contains(r.What, "join for r while already present")
+		case "C07/replay/gone-without-leave":
+			aboutSelf = strings.Contains(r.What, "event replay lists r but Members() does not")
+		case "C02/invariant/self-not-alive", "C02/invariant/self-not-listed", "C07/startup/self-not-listed":
+			aboutSelf = moved // (a node that comes back on its old address does become alive)
+		}
+		if own && aboutSelf {
+			r.What = "[" + r.Key + "] " + r.What + fmt.Sprintf(" [waiting traffic %s, address changed %v, address look-up took %v]", kind, moved, delay)
+			if moved {
+				r.Key = "C07/own-claim-before-announce/moved/never-alive"
+			} else {
+				r.Key = "C07/own-claim-before-announce/joined-twice"
+			}
+		}
+	}
+	cells = c.EventCells()
+	for _, n := range c.Nodes {
+		if n.Ev != nil {
+			events += n.Ev.Events.Load()
+		}
+	}
+	return
+}
+
 func TestC07(t *testing.T) {
 	run := NewRun(t, "C07", "exploration",
 		"The event monitor (installed on every node of every scenario of every check) asserts inside each callback: exactly one callback in flight (atomic counter, Gosched to widen), the per-member automaton absent -join-> present -update*-> present -leave-> absent, and - under the node lock memberlist itself holds - that the set of live records equals the replayed event set with the event's metadata/address equal to the record's; at every quiescent point Members() (names) and the locked dump (fields) must equal the replay. Dedicated workloads here: (a) churn fault scripts (crash/hang/restart, leave and same-name rejoin, partitions, loss, metadata updates) with GossipToTheDeadTime of 1-5 s so that reaping passes happen, (b) bursts of 2-5 claims about one member delivered at the same instant from the packet handler, push/pull stream handlers and UpdateNode. Cell = (transition incl. join-after-left/dead/new-address and leave as left|dead) x (cause read from the callback's stack: gossip, push-pull, own-timer, local-api).")
@@ -237,6 +360,30 @@ func TestC07(t *testing.T) {
 		merge(cells)
 		for _, r := range res {
 			run.Violation(id, r.Key, r.What, map[string]any{"burst_case": i})
+		}
+	}
+	ns := run.Pick(240, 12000)
+	for i := 0; i < ns; i++ {
+		if !run.Mine(i) {
+			continue
+		}
+		id := fmt.Sprintf("startup/%d", i)
+		if !run.Want(id) {
+			continue
+		}
+		rng := run.RNG(id)
+		run.Journal(id, "")
+		var res []*c01Result
+		var cells map[string]int64
+		var ev int64
+		err := Bubble(t, func() { res, cells, ev = runC07Startup(run, run.Seed()*131+int64(i), rng) })
+		if err != nil {
+			res = append(res, &c01Result{"C07/bubble", err.Error()})
+		}
+		run.Eval(ev + 1)
+		merge(cells)
+		for _, r := range res {
+			run.Violation(id, r.Key, r.What, map[string]any{"startup_case": i})
 		}
 	}
 	if !run.Replaying() {
